@@ -1,8 +1,11 @@
 //! Shared pieces of the correspondence harness: PRNG, wire format, Lean driver runner, report.
+pub mod bcgen;
+pub mod childrun;
 pub mod driver;
 pub mod lexwire;
 pub mod report;
 pub mod rng;
+pub mod tplgen;
 pub mod wire;
 
 /// Tier and seed as given by the check script (env `VERIF_TIER`, `VERIF_SEED`).
